@@ -7,7 +7,6 @@ import (
 	"sort"
 	"strings"
 
-		
 	"verifharness/nodeimpl"
 	"verifharness/nodekit"
 	"verifharness/vh"
